@@ -6,6 +6,7 @@
       inside one `with <lock from _get_invocation_lock>` block.
   mem_lock_table_atomic : _get_invocation_lock obtains the lock with one atomic dict operation
       (dict.setdefault) or under a table-wide lock, not check-then-insert.
+  mem_lock_table_stable : nothing but __init__ / _get_invocation_lock / purge ever changes the lock table.
 Fail-closed on unrecognised shapes."""
 from __future__ import annotations
 
@@ -103,14 +104,46 @@ def mem_facts(src: str) -> dict:
         table_atomic = False      # `if id not in self.locks: self.locks[id] = Lock()` — check-then-insert
     else:
         raise TranslateError("_get_invocation_lock: unrecognised shape")
-    return {"mem_transition_locked": locked, "mem_lock_table_atomic": table_atomic}
+    # the lock table must be stable: an entry, once created, is the lock of that invocation for good.  Every
+    # mutation of `self.locks` in the class is accounted for: the assignment in __init__, the insertion in
+    # _get_invocation_lock, `clear()` in purge.  Anything else (pop / del / popitem / reassignment / clear elsewhere)
+    # retires a lock some thread may still hold or wait on: two threads then serialise on different locks.
+    cls = next(n for n in tree.body if isinstance(n, ast.ClassDef) and n.name == "MemOrchestrator")
+    stable = True
+    for meth in [m for m in cls.body if isinstance(m, ast.FunctionDef)]:
+        for n in ast.walk(meth):
+            tgt = None
+            if isinstance(n, ast.Call) and isinstance(n.func, ast.Attribute) and _is_locks(n.func.value) and \
+                    n.func.attr in ("pop", "popitem", "clear", "update", "__delitem__", "__setitem__"):
+                tgt = n.func.attr
+            elif isinstance(n, ast.Delete) and any(_mentions_locks(t) for t in n.targets):
+                tgt = "del"
+            elif isinstance(n, (ast.Assign, ast.AugAssign, ast.AnnAssign)):
+                ts = n.targets if isinstance(n, ast.Assign) else [n.target]
+                if any(_mentions_locks(t) for t in ts):
+                    tgt = "assign"
+            if tgt is None:
+                continue
+            ok = (meth.name == "__init__" and tgt == "assign") or (meth.name == "purge" and tgt == "clear") or \
+                 (meth.name == "_get_invocation_lock" and tgt in ("assign",))
+            if not ok:
+                stable = False
+    return {"mem_transition_locked": locked, "mem_lock_table_atomic": table_atomic, "mem_lock_table_stable": stable}
+
+
+def _is_locks(node) -> bool:
+    return isinstance(node, ast.Attribute) and node.attr == "locks" and isinstance(node.value, ast.Name) and node.value.id == "self"
+
+
+def _mentions_locks(node) -> bool:
+    return any(_is_locks(n) for n in ast.walk(node))
 
 
 def emit(f: dict) -> str:
     lines = ["(* GENERATED by harness/translate/atomicity.py from mem_orchestrator.py / sqlite_orchestrator.py *)", ""]
-    for k in ("sqlite_transition_immediate", "mem_transition_locked", "mem_lock_table_atomic"):
+    for k in ("sqlite_transition_immediate", "mem_transition_locked", "mem_lock_table_atomic", "mem_lock_table_stable"):
         lines.append(f"Definition {k} : bool := {'true' if f[k] else 'false'}.")
-    lines.append("Definition mem_transition_atomic : bool := mem_transition_locked && mem_lock_table_atomic.")
+    lines.append("Definition mem_transition_atomic : bool := mem_transition_locked && mem_lock_table_atomic && mem_lock_table_stable.")
     return "\n".join(lines) + "\n"
 
 
